@@ -788,10 +788,12 @@ def strip_fresh(v: Val) -> Val:
 
 
 class Site:
-    __slots__ = ("where", "expr", "loc", "how", "lineno")
+    """One write.  `unc` (uncertain): the written object was only partly resolved (the same access
+    may also hit an unknown object), so the location is a may-guess rather than a finding."""
+    __slots__ = ("where", "expr", "loc", "how", "lineno", "unc")
 
-    def __init__(self, where, expr, loc, how, lineno):
-        self.where, self.expr, self.loc, self.how, self.lineno = where, expr, loc, how, lineno
+    def __init__(self, where, expr, loc, how, lineno, unc=False):
+        self.where, self.expr, self.loc, self.how, self.lineno, self.unc = where, expr, loc, how, lineno, unc
 
     def key(self):
         return (self.where, self.expr, self.loc, self.how)
@@ -885,10 +887,17 @@ class Analysis:
         self.paramvals: Dict[Tuple[str, str], Val] = {}
         self.modvals: Dict[Tuple[str, str], Val] = {}
         self.anyenv: Dict[str, Dict[str, Val]] = {}
+        # tables of the previous phase (read) -- the ones above are (re)written in the current phase
+        self.r_fieldvals = self.fieldvals
+        self.r_paramvals = self.paramvals
+        self.r_modvals = self.modvals
+        self.entry_params: Set[Tuple[str, str]] = set()   # parameters nothing analysed ever passes a value to
+        self.phases = 0
         self.results: Dict[str, "Effects"] = {}
         self.changed = False
         self.iterations = 0
         self.stored_into: Set[Tuple] = set()      # shared roots into which some site stores a value
+        self.r_stored_into = self.stored_into
         _EMPTY_SHARED[0] = self.is_empty_shared
         self.subclasses: Dict[str, List[Class]] = {}
         for c in prog.classes.values():
@@ -922,7 +931,7 @@ class Analysis:
                 self.changed = True
 
     def is_empty_shared(self, r) -> bool:
-        if r in self.stored_into or r[0] != "default":
+        if r in self.r_stored_into or r[0] != "default":
             return False
         f = self.prog.funcs.get(r[1])
         e = f.defaults.get(r[2]) if f is not None else None
@@ -947,31 +956,137 @@ class Analysis:
     def field_val(self, cls: Class, fld: str) -> Optional[Val]:
         out = None
         for c in self.family(cls):
-            v = self.fieldvals.get((c.key, fld))
+            v = self.r_fieldvals.get((c.key, fld))
             if v is not None:
                 out = v if out is None else out.join(v)
         return out
 
     # ---- driver ---------------------------------------------------------------------
-    def run(self, max_rounds: int = 60):
+    def run(self, max_rounds: int = 80):
+        """Phased chaotic iteration.
+
+        Within a phase the per-function summaries start from bottom and are accumulated (monotone,
+        hence terminating) over the call graph, while the inter-procedural tables (values of fields,
+        parameters, module globals; entry parameters) accumulate across phases.  A value whose type
+        is not known YET (parameter nothing has been passed to so far, callee without summary) is
+        bottom and yields bottom.  Facts derived in a phase while the tables were still incomplete
+        could survive in recursive cycles; therefore a phase whose tables changed is followed by
+        another one that recomputes all summaries from bottom under the now complete tables.  The
+        result is the least fixpoint of the summaries under the final tables."""
         order = sorted(self.prog.funcs.values(), key=lambda f: (f.module.name, f.node.lineno if not f.is_module else 0, f.key))
-        for rnd in range(max_rounds):
-            self.changed = False
-            self.iterations = rnd + 1
-            for f in order:
-                e = Effects(self, f)
-                e.analyse()
-                self.results[f.key] = e
-                s = self.summ.get(f.key)
-                new = e.summary()
-                if s is None or s.sig() != new.sig():
-                    self.changed = True
-                self.summ[f.key] = new
-            if not self.changed:
+        total = 0
+        for phase in range(12):
+            self.phases = phase + 1
+            self.summ, self.results = {}, {}
+            before = (self._tkey(self.fieldvals), self._tkey(self.paramvals), self._tkey(self.modvals),
+                      set(self.stored_into), set(self.entry_params),
+                      {k: {n: v.key() for n, v in d.items()} for k, d in self.anyenv.items()})
+            for rnd in range(max_rounds):
+                self.changed = False
+                total += 1
+                for f in order:
+                    e = Effects(self, f)
+                    e.analyse()
+                    self.results[f.key] = e
+                    s = self.summ.get(f.key)
+                    new = e.summary()
+                    if s is not None:
+                        for loc, sites in s.mod.items():
+                            d = new.mod.setdefault(loc, {})
+                            for k, v in sites.items():
+                                d.setdefault(k, v)
+                        new.ret = s.ret.join(new.ret)
+                        for p, r in s.param_reach.items():
+                            new.param_reach[p] = new.param_reach.get(p, E) | r
+                    if s is None or s.sig() != new.sig():
+                        self.changed = True
+                    self.summ[f.key] = new
+                if rnd == 0 and phase == 0:
+                    order = self._callee_first_order(order)
+                if not self.changed:
+                    break
+            else:
+                raise RuntimeError("FX effect fixpoint did not converge")
+            for f in self.prog.real_functions():
+                e = self.results.get(f.key)
+                for p in (e.bottom_params if e is not None else ()):
+                    self.entry_params.add((f.key, p))
+            after = (self._tkey(self.fieldvals), self._tkey(self.paramvals), self._tkey(self.modvals),
+                     set(self.stored_into), set(self.entry_params),
+                     {k: {n: v.key() for n, v in d.items()} for k, d in self.anyenv.items()})
+            if after == before:
                 break
         else:
-            raise RuntimeError("FX effect fixpoint did not converge")
+            raise RuntimeError("FX effect fixpoint did not converge (tables)")
+        # the sites reported for a function are those of its last analysis under the final summaries
+        self.iterations = total
         return self
+
+    @staticmethod
+    def _tkey(t: Dict) -> Dict:
+        return {k: v.key() for k, v in t.items()}
+
+    def _callee_first_order(self, order: List[Func]) -> List[Func]:
+        """Strongly connected components of the call graph seen in the last phase, callees first."""
+        edges: Dict[str, List[str]] = {}
+        for f in order:
+            e = self.results.get(f.key)
+            out = []
+            if e is not None:
+                for ts in e.calls.values():
+                    for t in ts:
+                        if t.func is not None:
+                            out.append(t.func.key)
+            for n in f.nested.values():
+                out.append(n.key)
+            edges[f.key] = sorted(set(out))
+        index, low, onstack, stack, comps = {}, {}, set(), [], []
+        counter = [0]
+        for root in [f.key for f in order]:
+            if root in index:
+                continue
+            work = [(root, 0)]
+            while work:
+                v, i = work.pop()
+                if i == 0:
+                    index[v] = low[v] = counter[0]
+                    counter[0] += 1
+                    stack.append(v)
+                    onstack.add(v)
+                succ = edges.get(v, [])
+                recurse = False
+                while i < len(succ):
+                    w = succ[i]
+                    i += 1
+                    if w not in index:
+                        work.append((v, i))
+                        work.append((w, 0))
+                        recurse = True
+                        break
+                    if w in onstack:
+                        low[v] = min(low[v], index[w])
+                if recurse:
+                    continue
+                if low[v] == index[v]:
+                    comp = []
+                    while True:
+                        w = stack.pop()
+                        onstack.discard(w)
+                        comp.append(w)
+                        if w == v:
+                            break
+                    comps.append(sorted(comp))
+                if work:
+                    p = work[-1][0]
+                    low[p] = min(low[p], low[v])
+        pos = {f.key: i for i, f in enumerate(order)}
+        out = []
+        for comp in comps:            # Tarjan emits callees before callers
+            for k in sorted(comp, key=lambda k: pos.get(k, 0)):
+                if k in self.prog.funcs:
+                    out.append(self.prog.funcs[k])
+        mods = [f for f in out if f.is_module]
+        return mods + [f for f in out if not f.is_module]
 
 
 def _own_nodes(fn_node):
@@ -1026,6 +1141,7 @@ class Effects(Flow):
         self.any: Dict[str, Val] = {}
         self.unresolved: Dict[Tuple, str] = {}
         self.is_generator = False
+        self.bottom_params: Set[str] = set()
         self._subject: Dict[int, Val] = {}
         self._iters: Dict[int, Val] = {}
         self._cur_stmt = None
@@ -1036,9 +1152,10 @@ class Effects(Flow):
         st = St()
         if not f.is_module:
             for p in f.params + [x for x in (f.vararg, f.kwarg) if x]:
-                st.env[p] = self.param_val(p)
-            if f.self_name and f.self_name in f.params and f.is_method:
-                st.env[f.self_name] = self.self_val()
+                if f.is_method and p == f.self_name:
+                    st.env[p] = self.self_val()
+                else:
+                    st.env[p] = self.param_val(p)
         for k, v in st.env.items():
             self.any[k] = v
         body = f.node.body
@@ -1059,7 +1176,7 @@ class Effects(Flow):
             extra = set()
             for r in v.roots | v.reach:
                 if r[0] == "param":
-                    pv = self.A.paramvals.get((self.f.key, r[1]))
+                    pv = self.A.r_paramvals.get((self.f.key, r[1]))
                     if pv is not None:
                         extra |= {x for x in pv.roots | pv.reach if is_shared(x) or x[0] in ("foot", "ext")}
             if extra:
@@ -1203,7 +1320,7 @@ class Effects(Flow):
         f = self.f
         v = Val({("param", p, None)})
         known = self.ann_val(f.annotations.get(p))
-        pv = self.A.paramvals.get((f.key, p))
+        pv = self.A.r_paramvals.get((f.key, p))
         dv = self.default_val(f, p) if p in f.defaults else None
         tags, elem, fns = E, E, E
         if known is not None:
@@ -1221,8 +1338,11 @@ class Effects(Flow):
                 tags |= dv.tags
             v = v.with_(roots=v.roots | frozenset(r for r in dv.roots if r != IMM))
         if not tags:
-            tags = frozenset({"unknown"})
-        if tags <= IMM_TAGS:
+            if (f.key, p) in self.A.entry_params or f.parent is not None:
+                tags = frozenset({"unknown"})
+            else:
+                self.bottom_params.add(p)       # nothing known yet: bottom
+        if tags and tags <= IMM_TAGS:
             v = v.with_(reach=E)
         return v.with_(tags=tags, elem=elem, fns=fns)
 
@@ -1266,11 +1386,13 @@ class Effects(Flow):
             return f"unknown:{r[1]}"
         return f"unknown:{r!r}"
 
-    def record(self, loc: str, node, how: str):
+    def record(self, loc: str, node, how: str, unc: bool = False):
         anchor = node if hasattr(node, "lineno") else self._cur_stmt
         expr = src_of(anchor) if anchor is not None else "?"
-        s = Site(self.where(anchor), expr, loc, how, getattr(anchor, "lineno", 0))
-        self.sites.setdefault(s.key(), s)
+        s = Site(self.where(anchor), expr, loc, how, getattr(anchor, "lineno", 0), unc)
+        old = self.sites.setdefault(s.key(), s)
+        if not unc:
+            old.unc = False
 
     def add_reach(self, st: St, roots: FrozenSet, stored: Val):
         # the target may be the container itself or (roots are collapsed) something inside it
@@ -1287,10 +1409,11 @@ class Effects(Flow):
 
     def write(self, st: St, base: Val, node, kind: str, attr: Optional[str] = None,
               stored: Optional[Val] = None, how: str = "direct"):
+        unc = any(r[0] in ("unknown", "lamarg") for r in base.roots)
         for r in sorted(base.roots, key=str):
             loc = self.loc_of(r, attr, kind)
             if loc is not None:
-                self.record(loc, node, how)
+                self.record(loc, node, how, unc and r[0] not in ("unknown", "lamarg"))
         if stored is not None:
             for r in base.roots:
                 if r[0] == "default" and r not in self.A.stored_into:
@@ -1351,7 +1474,7 @@ class Effects(Flow):
             m, name = g[1], g[2]
             if record:
                 self.reads.add(f"global:{m.name}.{name}")
-            mv = self.A.modvals.get((m.name, name))
+            mv = self.A.r_modvals.get((m.name, name))
             root = ("global", m.name, name)
             if mv is None:
                 return Val({root}, tags={"unknown"})
@@ -1454,8 +1577,8 @@ class Effects(Flow):
         return out
 
     def attr_val(self, base: Val, a: str, st: St, node) -> Val:
-        if not base.roots and not base.tags and not base.fns:
-            return V_EMPTY          # bottom: the callee that produces the object is not summarised yet
+        if not (base.tags - {"none"}) and not base.fns and not any(r[0] in ("module", "clsobj", "self") for r in base.roots):
+            return V_EMPTY          # bottom: the type of the object is not known yet (None has no attributes)
         outs: List[Val] = []
         others = set()
         for r in sorted(base.roots, key=str):
@@ -1536,6 +1659,8 @@ class Effects(Flow):
                 if fns:
                     outs.append(Val({IMM}, tags={"callable"}, fns=fns))
                 return join_vals(outs)
+            if classes and not found and not fns:
+                return join_vals(outs)      # class known, nothing stored into that field (yet): bottom
             if not tags:
                 tags = {"unknown"}
             outs.append(imm_norm(Val(roots or {IMM}, base.reach, tags, elem, fns)))
@@ -1550,8 +1675,10 @@ class Effects(Flow):
         if not tags:
             if it.tags and it.tags <= {"str"}:
                 tags = frozenset({"str"})
+            elif not it.tags:
+                return V_EMPTY                 # bottom
             elif it.tags <= {"list", "dict", "set", "tuple", "none"}:
-                # bottom (nothing known yet) or a container into which nothing has been put
+                # a container into which nothing has been put (so far)
                 return Val(contents(it), it.reach)
             else:
                 tags = frozenset({"unknown"})
@@ -1859,6 +1986,16 @@ class Effects(Flow):
                                     fns.add(("func", m.key, frozenset(obj.roots)))
                 if classes:
                     r = Val({IMM}, tags={"callable"}, fns=fns)
+                    # data attributes the computed name could denote
+                    for c in classes:
+                        names = set()
+                        for k in self.A.family(c):
+                            names |= set(self.A.inst_fields.get(k.key, {})) | set(k.attrs)
+                        for nm_ in sorted(names):
+                            if nmv.prefix is None or nm_.startswith(nmv.prefix):
+                                r = r.join(self.attr_val(obj, nm_, st, node))
+                    if nmv.prefix is None:
+                        r = r.join(v_unknown("getattr with a computed attribute name"))
                 else:
                     r = v_unknown("getattr with a computed name on an object of unknown class")
             return r.join(dflt) if dflt is not None else r
@@ -1924,7 +2061,7 @@ class Effects(Flow):
                     out.add(("foot",))
                 elif k == "param":
                     out.add(("ext",))
-                    pv = self.A.paramvals.get((self.f.key, r[1]))
+                    pv = self.A.r_paramvals.get((self.f.key, r[1]))
                     if pv is not None:
                         out |= {x for x in pv.roots | pv.reach if is_shared(x) or x[0] == "foot"}
                 elif is_fresh(r):
@@ -2034,18 +2171,19 @@ class Effects(Flow):
             if not self.A.frames.allows(callee.key, loc):
                 continue            # a violation of the callee's own declared frame: blamed there
             kind, head, rest = parse_loc(loc)
+            unc = all(x.unc for x in S.mod[loc].values())
             if kind == "self":
                 if recv is None:
-                    self.record(loc, node, how)
+                    self.record(loc, node, how, unc)
                     continue
                 for q in sorted(recv, key=str):
                     if q[0] in ("self", "foot"):
-                        self.record(loc, node, how)
+                        self.record(loc, node, how, unc)
                     else:
                         l2 = self.loc_of(q, rest[0] if (len(rest) == 1 and rest[0] != "*") else None,
                                          "attr" if (len(rest) == 1 and rest[0] != "*") else "item")
                         if l2 is not None:
-                            self.record(l2, node, f"{how} ({loc})")
+                            self.record(l2, node, f"{how} ({loc})", unc)
             elif kind == "param":
                 if head in argmap:
                     binding = len(rest) == 1 and rest[0] != "*"
@@ -2055,15 +2193,15 @@ class Effects(Flow):
                             continue        # contents of an always-empty default object
                         l2 = self.loc_of(q, rest[0] if binding else None, "attr" if binding else "item")
                         if l2 is not None:
-                            self.record(l2, node, f"{how} ({loc})")
+                            self.record(l2, node, f"{how} ({loc})", unc)
                 elif callee.parent is not None:
-                    self.record(loc, node, how)
+                    self.record(loc, node, how, unc)
                 elif head == "<external>":
-                    self.record(loc, node, how)
+                    self.record(loc, node, how, unc)
                 else:
                     self.record(f"unknown:unbound parameter {head} of {callee.qual}", node, how)
             else:
-                self.record(loc, node, how)
+                self.record(loc, node, how, unc)
         for p, shared in S.param_reach.items():
             if p in argmap:
                 self.add_reach(st, argmap[p].roots, Val(reach=shared))
@@ -2081,7 +2219,6 @@ class Effects(Flow):
         init = c.find_method("__init__")
         if init is not None:
             self.apply_callee(st, init, frozenset(inst.roots), pos, kw, node, star)
-            self.calls[id(node)][-1].kind = "ctor" if self.calls[id(node)][-1].func is init else self.calls[id(node)][-1].kind
             for t in self.calls[id(node)]:
                 if t.func is init:
                     t.kind, t.cls = "ctor", c
@@ -2547,3 +2684,800 @@ class DefUse(Flow):
             if it.optional_vars is not None:
                 st = self.assign_target(it.optional_vars, st)
         return st
+
+
+# ======================================================================================
+# INDENT pass: net change of one integer field along every normally returning path
+# ======================================================================================
+class Indent(Flow):
+    """State: frozenset of (kind, value, facts) with kind 'rel' (net change so far) or 'abs' (the
+    field was assigned the constant `value` (+ later changes) on this path); facts records the
+    truth of plain-name conditions already decided on the path, so that
+        if flag: x += 2 ... if flag: x -= 2
+    is followed consistently."""
+
+    MAX_STATE = 512
+
+    def __init__(self, A: Analysis, f: Func, field: str):
+        super().__init__()
+        self.A = A
+        self.f = f
+        self.field = field
+        self.eff = A.results.get(f.key)
+        self.undecided: List[str] = []
+        self.relies: Set[str] = set()
+        self.ends: List[Tuple[int, Any]] = []
+
+    def analyse(self):
+        st = frozenset({("rel", 0, frozenset())})
+        self.run(self.f.node.body, st)
+        for node, s in self.returns:
+            if s is not None:
+                self.ends.append((node.lineno, s))
+        if self.fell_off_end is not None:
+            self.ends.append((self.f.node.end_lineno, self.fell_off_end))
+        return self
+
+    def join(self, a, b):
+        u = a | b
+        if len(u) > self.MAX_STATE:
+            self.undecided.append("too many distinct paths")
+            return frozenset(list(sorted(u, key=str))[: self.MAX_STATE])
+        return u
+
+    def is_field(self, t) -> bool:
+        return isinstance(t, ast.Attribute) and t.attr == self.field and isinstance(t.value, ast.Name) \
+            and t.value.id == self.f.self_name
+
+    def forget(self, st, names: Set[str]):
+        if not names:
+            return st
+        return frozenset((k, v, frozenset(x for x in facts if x[0] not in names)) for k, v, facts in st)
+
+    def scan_calls(self, node):
+        if self.eff is None:
+            return
+        cls = self.f.cls
+        loc = f"self:{cls.name}.{self.field}"
+        for n in ast.walk(node):
+            if isinstance(n, ast.Call):
+                for t in self.eff.calls.get(id(n), []):
+                    if t.kind in ("func", "ctor") and t.func is not None:
+                        if t.func.cls is not None and t.func.cls in self.A.family(cls) and t.recv_kind in ("self", "field", "foot"):
+                            self.relies.add(t.func.qual)       # contract: net change 0
+                        elif t.func.parent is not None and t.func.cls is cls:
+                            self.relies.add(t.func.qual)
+                        else:
+                            s = self.A.summ.get(t.func.key)
+                            if s is not None and loc in s.mod and t.recv_kind in ("self", "field", "foot"):
+                                self.undecided.append(f"line {n.lineno}: callee {t.func.qual} outside the class writes {loc}")
+            elif isinstance(n, ast.NamedExpr) and isinstance(n.target, ast.Name):
+                pass
+
+    def do_simple(self, s, st):
+        self.scan_calls(s)
+        stored = {n.id for n in ast.walk(s) if isinstance(n, ast.Name) and isinstance(n.ctx, (ast.Store, ast.Del))}
+        st = self.forget(st, stored)
+        if isinstance(s, ast.AugAssign) and self.is_field(s.target):
+            k = s.value.value if isinstance(s.value, ast.Constant) and isinstance(s.value.value, int) else None
+            if k is None or not isinstance(s.op, (ast.Add, ast.Sub)):
+                self.undecided.append(f"line {s.lineno}: `{src_of(s)}` is not +=/-= of an integer constant")
+                return st
+            d = k if isinstance(s.op, ast.Add) else -k
+            return frozenset((kind, v + d, facts) for kind, v, facts in st)
+        if isinstance(s, (ast.Assign, ast.AnnAssign)):
+            targets = s.targets if isinstance(s, ast.Assign) else [s.target]
+            flat = []
+            for t in targets:
+                flat += [x for x in ast.walk(t) if isinstance(x, ast.Attribute)]
+            if any(self.is_field(t) for t in flat):
+                v = s.value
+                if isinstance(v, ast.Constant) and isinstance(v.value, int) and len(targets) == 1 and self.is_field(targets[0]):
+                    return frozenset(("abs", v.value, facts) for _, _, facts in st)
+                self.undecided.append(f"line {s.lineno}: `{src_of(s)}` assigns a non-constant")
+        if isinstance(s, ast.Delete) and any(self.is_field(t) for t in s.targets):
+            self.undecided.append(f"line {s.lineno}: del of the field")
+        return st
+
+    def do_test(self, e, st):
+        self.scan_calls(e)
+        name, pos = None, True
+        if isinstance(e, ast.Name):
+            name = e.id
+        elif isinstance(e, ast.UnaryOp) and isinstance(e.op, ast.Not) and isinstance(e.operand, ast.Name):
+            name, pos = e.operand.id, False
+        if name is None:
+            walrus = {n.target.id for n in ast.walk(e) if isinstance(n, ast.NamedExpr) and isinstance(n.target, ast.Name)}
+            st = self.forget(st, walrus)
+            return st, st
+        t, f = set(), set()
+        for kind, v, facts in st:
+            known = dict(facts).get(name)
+            if known is None or known == pos:
+                t.add((kind, v, facts | {(name, pos)}))
+            if known is None or known != pos:
+                f.add((kind, v, facts | {(name, not pos)}))
+        return (frozenset(t) or None), (frozenset(f) or None)
+
+    def do_iter(self, s, st):
+        self.scan_calls(s.iter)
+        return st
+
+    def do_bind_iter(self, s, st):
+        return self.forget(st, set(_target_names(s.target)))
+
+    def do_return(self, s, st):
+        if s.value is not None:
+            self.scan_calls(s.value)
+        return st
+
+    def do_raise(self, s, st):
+        return st
+
+    def do_subject(self, s, st):
+        self.scan_calls(s.subject)
+        return st
+
+    def do_case(self, s, case, st):
+        names = {n.name for n in ast.walk(case.pattern) if isinstance(n, (ast.MatchAs, ast.MatchStar)) and n.name}
+        return self.forget(st, names), st
+
+    def do_with(self, s, st):
+        for it in s.items:
+            self.scan_calls(it.context_expr)
+        return st
+
+    def verdict(self):
+        """-> (status, detail, assumptions)"""
+        bad, assume = [], []
+        for line, st in self.ends:
+            for kind, v, facts in sorted(st, key=str):
+                cond = ", ".join(f"{n}={'true' if b else 'false'}" for n, b in sorted(facts))
+                if kind == "rel" and v != 0:
+                    bad.append(f"{self.f.module.rel}:{line}: path returning here changes self.{self.field} by {v:+d}"
+                               + (f" (when {cond})" if cond else ""))
+                elif kind == "abs":
+                    if v != 0:
+                        bad.append(f"{self.f.module.rel}:{line}: path returning here leaves self.{self.field} = {v} regardless of its entry value")
+                    else:
+                        assume.append(f"{self.f.qual} assigns self.{self.field} = 0 and returns with 0: balanced iff it is entered with {self.field} == 0")
+        for d in self.diverged:
+            bad.append(f"{self.f.module.rel}: {d}: the loop body has a non-zero net effect on self.{self.field}")
+        if bad:
+            return core.REFUTED, "\n".join(sorted(set(bad))), assume
+        if self.undecided:
+            return core.UNDECIDED, "\n".join(sorted(set(self.undecided))), assume
+        return core.DISCHARGED, "", sorted(set(assume))
+
+
+# ======================================================================================
+# TAINT pass: coordinate non-interference (also reused for lexer position state)
+# ======================================================================================
+CLEAN, TAINT = "C", "T"
+
+
+def t_join(a, b):
+    if a == b:
+        return a
+    if a == CLEAN:
+        return b
+    if b == CLEAN:
+        return a
+    if a == TAINT or b == TAINT:
+        return TAINT
+    ea = list(a[1]) if a[0] == "tup" else [a[1]]
+    eb = list(b[1]) if b[0] == "tup" else [b[1]]
+    if a[0] == "tup" and b[0] == "tup" and len(ea) == len(eb):
+        return ("tup", tuple(t_join(x, y) for x, y in zip(ea, eb)))
+    out = CLEAN
+    for x in ea + eb:
+        out = t_join(out, x)
+    return ("seq", out)
+
+
+def t_any(v) -> bool:
+    if v == TAINT:
+        return True
+    if v == CLEAN:
+        return False
+    if v[0] == "tup":
+        return any(t_any(x) for x in v[1])
+    return t_any(v[1])
+
+
+def t_elem(v):
+    if v in (CLEAN, TAINT):
+        return v
+    if v[0] == "seq":
+        return v[1]
+    out = CLEAN
+    for x in v[1]:
+        out = t_join(out, x)
+    return out
+
+
+class TaintConfig:
+    def __init__(self, name, scope_modules, source_attrs=(), self_source_attrs=(), store_attrs=(),
+                 self_store_attrs=(), allow_arith=False, ctor_param_ok=None, sink_call_attrs=(),
+                 exempt_classes=(), what="coordinate"):
+        self.name = name
+        self.scope_modules = set(scope_modules)
+        self.source_attrs = set(source_attrs)
+        self.self_source_attrs = set(self_source_attrs)
+        self.store_attrs = set(store_attrs)
+        self.self_store_attrs = set(self_store_attrs)
+        self.allow_arith = allow_arith
+        self.ctor_param_ok = ctor_param_ok or (lambda cls, p: False)
+        self.sink_call_attrs = set(sink_call_attrs)
+        self.exempt_classes = set(exempt_classes)
+        self.what = what
+
+
+class TaintAnalysis:
+    def __init__(self, A: Analysis, cfg: TaintConfig):
+        self.A = A
+        self.cfg = cfg
+        self.prog = A.prog
+        self.funcs = [f for f in self.prog.real_functions() if f.module.name in cfg.scope_modules]
+        self.in_scope = {f.key for f in self.funcs}
+        self.param: Dict[Tuple[str, str], Any] = {}
+        self.param_origin: Dict[Tuple[str, str], Set[str]] = {}
+        self.ret: Dict[str, Any] = {}
+        self.anyenv: Dict[str, Dict[str, Any]] = {}
+        self.viol: Dict[str, List[str]] = {}
+        self.changed = False
+        self.rounds = 0
+
+    def set_param(self, key, t, origin):
+        old = self.param.get(key, CLEAN)
+        new = t_join(old, t)
+        if new != old:
+            self.param[key] = new
+            self.changed = True
+        if t_any(t):
+            self.param_origin.setdefault(key, set()).add(origin)
+
+    def run(self):
+        for rnd in range(40):
+            self.rounds = rnd + 1
+            self.changed = False
+            for f in self.funcs:
+                t = Taint(self, f)
+                t.analyse()
+                self.viol[f.key] = t.violations
+                if self.ret.get(f.key, CLEAN) != t.ret:
+                    self.ret[f.key] = t_join(self.ret.get(f.key, CLEAN), t.ret)
+                    self.changed = True
+                if self.anyenv.get(f.key) != t.any:
+                    self.anyenv[f.key] = t.any
+                    if f.nested:
+                        self.changed = True
+            if not self.changed:
+                return self
+        raise RuntimeError("FX taint fixpoint did not converge")
+
+
+class Taint(Flow):
+    def __init__(self, TA: TaintAnalysis, f: Func):
+        super().__init__()
+        self.TA = TA
+        self.cfg = TA.cfg
+        self.f = f
+        self.eff = TA.A.results.get(f.key)
+        self.ret = CLEAN
+        self.any: Dict[str, Any] = {}
+        self.violations: List[str] = []
+        self._seen: Set[str] = set()
+        self.locals = local_names(f.node) | set(f.params)
+        self.exempt = f.cls is not None and f.cls.key in self.cfg.exempt_classes
+
+    def analyse(self):
+        if self.exempt:
+            self.ret = TAINT
+            return
+        env = {}
+        for p in self.f.params:
+            env[p] = self.TA.param.get((self.f.key, p), CLEAN)
+        self.any = dict(env)
+        self.run(self.f.node.body, env)
+
+    # ---- plumbing ----------------------------------------------------------------------------
+    def join(self, a, b):
+        out = dict(a)
+        for k, v in b.items():
+            out[k] = t_join(out.get(k, CLEAN), v)
+        return out
+
+    def bad(self, node, msg):
+        line = getattr(node, "lineno", "?")
+        s = f"{self.f.module.rel}:{line}: {msg}: `{src_of(node)}`"
+        if s not in self._seen:
+            self._seen.add(s)
+            self.violations.append(s)
+
+    def bind(self, st, name, t):
+        st[name] = t
+        self.any[name] = t_join(self.any.get(name, CLEAN), t)
+
+    def lookup(self, name, st):
+        if name in self.locals:
+            return st.get(name, CLEAN)
+        p = self.f.parent
+        while p is not None:
+            env = self.TA.anyenv.get(p.key, {})
+            if name in env:
+                return env[name]
+            p = p.parent
+        return CLEAN
+
+    def is_self(self, e):
+        return isinstance(e, ast.Name) and self.f.self_name is not None and e.id == self.f.self_name
+
+    def origin_note(self) -> str:
+        notes = []
+        for p in self.f.params:
+            o = self.TA.param_origin.get((self.f.key, p))
+            if o:
+                notes.append(f"parameter {p} receives a {self.cfg.what}-derived value at " + "; ".join(sorted(o)[:3]))
+        return " [" + " | ".join(notes) + "]" if notes else ""
+
+    # ---- expressions ---------------------------------------------------------------------------
+    @staticmethod
+    def is_none_test(e) -> bool:
+        return isinstance(e, ast.Compare) and len(e.ops) == 1 and isinstance(e.ops[0], (ast.Is, ast.IsNot)) \
+            and ((isinstance(e.comparators[0], ast.Constant) and e.comparators[0].value is None)
+                 or (isinstance(e.left, ast.Constant) and e.left.value is None))
+
+    def cond(self, e, st, what="branch/loop condition"):
+        """A value used for its truth."""
+        if isinstance(e, ast.BoolOp):
+            for v in e.values:
+                self.cond(v, st, what)
+            return
+        if isinstance(e, ast.UnaryOp) and isinstance(e.op, ast.Not):
+            self.cond(e.operand, st, what)
+            return
+        t = self.tv(e, st)
+        if t == TAINT:
+            self.bad(e, f"{what} depends on a {self.cfg.what}-derived value")
+
+    def tv(self, e, st):
+        if e is None:
+            return CLEAN
+        k = type(e)
+        if k is ast.Constant:
+            return CLEAN
+        if k is ast.Name:
+            return self.lookup(e.id, st)
+        if k is ast.Attribute:
+            b = self.tv(e.value, st)
+            if e.attr in self.cfg.source_attrs:
+                return TAINT
+            if e.attr in self.cfg.self_source_attrs and self.is_self(e.value):
+                return TAINT
+            return TAINT if b == TAINT else CLEAN
+        if k is ast.Call:
+            return self.tv_call(e, st)
+        if k is ast.Subscript:
+            b = self.tv(e.value, st)
+            if isinstance(e.slice, ast.Slice):
+                for x in (e.slice.lower, e.slice.upper, e.slice.step):
+                    if t_any(self.tv(x, st)):
+                        self.bad(e, f"slice bound derived from a {self.cfg.what}")
+                return b
+            if t_any(self.tv(e.slice, st)):
+                self.bad(e, f"subscript/index derived from a {self.cfg.what}")
+            if b in (CLEAN, TAINT):
+                return b
+            if b[0] == "tup" and isinstance(e.slice, ast.Constant) and isinstance(e.slice.value, int) \
+                    and -len(b[1]) <= e.slice.value < len(b[1]):
+                return b[1][e.slice.value]
+            return t_elem(b)
+        if k is ast.Compare:
+            if self.is_none_test(e):
+                self.tv(e.left, st)
+                self.tv(e.comparators[0], st)
+                return CLEAN                  # None-ness of a coordinate is a function of the tokens
+            ts = [self.tv(e.left, st)] + [self.tv(c, st) for c in e.comparators]
+            if any(t_any(t) for t in ts):
+                self.bad(e, f"comparison involving a {self.cfg.what}-derived value")
+            return CLEAN
+        if k is ast.BinOp:
+            l, r = self.tv(e.left, st), self.tv(e.right, st)
+            if l == TAINT or r == TAINT:
+                if not self.cfg.allow_arith:
+                    self.bad(e, f"arithmetic on a {self.cfg.what}-derived value")
+                return TAINT
+            return t_join(l, r) if (l == CLEAN or r == CLEAN) else ("seq", t_join(t_elem(l), t_elem(r)))
+        if k is ast.UnaryOp:
+            if isinstance(e.op, ast.Not):
+                self.cond(e.operand, st, "truth test")
+                return CLEAN
+            t = self.tv(e.operand, st)
+            if t == TAINT and not self.cfg.allow_arith:
+                self.bad(e, f"arithmetic on a {self.cfg.what}-derived value")
+            return t
+        if k is ast.BoolOp:
+            out = CLEAN
+            for i, v in enumerate(e.values):
+                t = self.tv(v, st)
+                if i < len(e.values) - 1 and t == TAINT:
+                    self.bad(v, f"truth test of a {self.cfg.what}-derived value")
+                out = t_join(out, t)
+            return out
+        if k is ast.IfExp:
+            self.cond(e.test, st)
+            return t_join(self.tv(e.body, st), self.tv(e.orelse, st))
+        if k is ast.JoinedStr:
+            out = CLEAN
+            for v in e.values:
+                if t_any(self.tv(v, st)):
+                    out = TAINT
+            return out
+        if k is ast.FormattedValue:
+            return self.tv(e.value, st)
+        if k is ast.Tuple:
+            ts = tuple(self.tv(x, st) for x in e.elts)
+            return ("tup", ts) if any(t_any(t) for t in ts) else CLEAN
+        if k in (ast.List, ast.Set):
+            out = CLEAN
+            for x in e.elts:
+                out = t_join(out, self.tv(x, st))
+            return ("seq", out) if t_any(out) else CLEAN
+        if k is ast.Dict:
+            out = CLEAN
+            for x in e.keys:
+                if x is not None and t_any(self.tv(x, st)):
+                    self.bad(x, f"dictionary key derived from a {self.cfg.what}")
+            for x in e.values:
+                out = t_join(out, self.tv(x, st))
+            return ("seq", out) if t_any(out) else CLEAN
+        if k in (ast.ListComp, ast.SetComp, ast.GeneratorExp, ast.DictComp):
+            st2 = dict(st)
+            for g in e.generators:
+                it = self.tv(g.iter, st2)
+                if it == TAINT:
+                    self.bad(g.iter, f"iteration over a {self.cfg.what}-derived value")
+                self.assign(g.target, t_elem(it), st2, g)
+                for c in g.ifs:
+                    self.cond(c, st2, "comprehension filter")
+            saved_locals = self.locals
+            self.locals = self.locals | set().union(*[set(_target_names(g.target)) for g in e.generators])
+            if k is ast.DictComp:
+                if t_any(self.tv(e.key, st2)):
+                    self.bad(e.key, f"dictionary key derived from a {self.cfg.what}")
+                t = self.tv(e.value, st2)
+            else:
+                t = self.tv(e.elt, st2)
+            self.locals = saved_locals
+            return ("seq", t) if t_any(t) else CLEAN
+        if k is ast.Lambda:
+            st2 = dict(st)
+            ps = [a.arg for a in e.args.posonlyargs + e.args.args + e.args.kwonlyargs]
+            for p in ps:
+                st2[p] = CLEAN
+            saved = self.locals
+            self.locals = self.locals | set(ps)
+            self.tv(e.body, st2)
+            self.locals = saved
+            return CLEAN
+        if k is ast.NamedExpr:
+            t = self.tv(e.value, st)
+            self.assign(e.target, t, st, e)
+            return t
+        if k is ast.Starred:
+            return t_elem(self.tv(e.value, st))
+        if k in (ast.Yield, ast.YieldFrom, ast.Await):
+            t = self.tv(e.value, st) if e.value is not None else CLEAN
+            self.ret = t_join(self.ret, t)
+            return CLEAN
+        out = CLEAN
+        for ch in ast.iter_child_nodes(e):
+            if isinstance(ch, ast.expr):
+                out = t_join(out, self.tv(ch, st))
+        return TAINT if t_any(out) else CLEAN
+
+    def tv_call(self, e: ast.Call, st):
+        f = e.func
+        recv_t = CLEAN
+        if isinstance(f, ast.Attribute):
+            recv_t = self.tv(f.value, st)
+        elif not isinstance(f, ast.Name):
+            self.tv(f, st)
+        argt: Dict[int, Any] = {}
+        pos_t = []
+        for a in e.args:
+            t = self.tv(a.value if isinstance(a, ast.Starred) else a, st)
+            argt[id(a)] = t
+            pos_t.append(t)
+        kw_t = {}
+        for k in e.keywords:
+            t = self.tv(k.value, st)
+            argt[id(k.value)] = t
+            kw_t[k.arg] = t
+        all_t = pos_t + list(kw_t.values())
+        any_tainted = any(t_any(t) for t in all_t)
+        targets = self.eff.calls.get(id(e), []) if self.eff is not None else []
+        here = f"{self.f.module.rel}:{e.lineno} ({self.f.qual})"
+        # sinks designated by the attribute through which they are called (lexer error callback)
+        if isinstance(f, ast.Attribute) and f.attr in self.cfg.sink_call_attrs and self.is_self(f.value):
+            return CLEAN
+        fts = [t for t in targets if t.kind in ("func", "ctor")]
+        result = CLEAN
+        if fts:
+            for t in fts:
+                if t.kind == "ctor" and t.cls is not None:
+                    mapping = t.argmap
+                    used = set()
+                    for pname, expr in mapping.items():
+                        at = argt.get(id(expr), CLEAN)
+                        used.add(id(expr))
+                        if t_any(at) and not self.cfg.ctor_param_ok(t.cls, pname):
+                            self.bad(expr, f"{self.cfg.what}-derived value passed to parameter `{pname}` of {t.cls.name}(...)")
+                    if t.func is None and not mapping and any_tainted and not self.cfg.ctor_param_ok(t.cls, "*"):
+                        self.bad(e, f"{self.cfg.what}-derived value passed to {t.cls.name}(...)")
+                    if self.cfg.ctor_param_ok(t.cls, "<result>"):
+                        result = TAINT
+                    continue
+                callee = t.func
+                if callee.key in self.TA.in_scope:
+                    for pname, expr in t.argmap.items():
+                        self.TA.set_param((callee.key, pname), argt.get(id(expr), CLEAN), here)
+                    result = t_join(result, self.TA.ret.get(callee.key, CLEAN))
+                else:
+                    for pname, expr in t.argmap.items():
+                        if t_any(argt.get(id(expr), CLEAN)):
+                            self.bad(expr, f"{self.cfg.what}-derived value passed to `{pname}` of {callee.qual} (outside the coordinate domain)")
+            if recv_t == TAINT:
+                result = TAINT
+            return result
+        # no internal target: builtins, external functions, container methods, callable parameters
+        name = f.id if isinstance(f, ast.Name) else (f.attr if isinstance(f, ast.Attribute) else "")
+        if isinstance(f, ast.Name):
+            if name in ("isinstance", "hasattr", "callable", "id", "type", "issubclass"):
+                return CLEAN
+            if name in ("str", "repr", "format", "cast"):
+                return TAINT if any_tainted else CLEAN
+            if name in ("list", "tuple", "dict", "set", "sorted", "reversed", "frozenset"):
+                out = CLEAN
+                for t in all_t:
+                    out = t_join(out, t if name == "dict" and t in kw_t.values() else t_elem(t) if t not in (TAINT,) else t)
+                if any(t == TAINT for t in pos_t):
+                    self.bad(e, f"{self.cfg.what}-derived value passed to {name}()")
+                return ("seq", out) if t_any(out) else CLEAN
+            if name == "getattr" and len(e.args) >= 2 and isinstance(e.args[1], ast.Constant):
+                if e.args[1].value in self.cfg.source_attrs:
+                    return TAINT
+                return TAINT if pos_t[0] == TAINT else CLEAN
+            if name in ("getattr", "vars") and not (self.is_self(e.args[0]) if e.args else False):
+                return TAINT          # a computed attribute name may denote a coordinate attribute
+            if name in ("enumerate", "zip", "iter"):
+                out = CLEAN
+                for t in pos_t:
+                    out = t_join(out, t_elem(t))
+                return ("seq", out) if t_any(out) else CLEAN
+        if isinstance(f, ast.Attribute) and name in MUTATORS:
+            if any_tainted:
+                stored = CLEAN
+                for t in (pos_t[1:] if name in ("insert", "setdefault") and len(pos_t) > 1 else pos_t):
+                    stored = t_join(stored, t_elem(t) if name in ("extend", "update") else t)
+                if name in ("insert", "setdefault") and pos_t and t_any(pos_t[0]):
+                    self.bad(e, f"index/key derived from a {self.cfg.what}")
+                if isinstance(f.value, ast.Name) and f.value.id in self.locals:
+                    self.bind(st, f.value.id, t_join(self.lookup(f.value.id, st), ("seq", stored)))
+                else:
+                    self.bad(e, f"{self.cfg.what}-derived value stored into a container that is not a local variable")
+            if name in ("pop", "popitem") :
+                return t_elem(recv_t) if recv_t not in (CLEAN, TAINT) else recv_t
+            return CLEAN
+        if isinstance(f, ast.Attribute) and recv_t not in (CLEAN,):
+            # reading out of a carrier / a method of a coordinate object
+            if any_tainted:
+                self.bad(e, f"{self.cfg.what}-derived argument to method .{name}()")
+            if name in ("get", "copy", "values", "items", "__getitem__"):
+                return recv_t if name in ("copy",) else t_elem(recv_t) if recv_t != TAINT else TAINT
+            return TAINT if recv_t == TAINT else CLEAN
+        if any_tainted:
+            self.bad(e, f"{self.cfg.what}-derived value passed to `{src_of(f)}` (not a coordinate sink)")
+        return CLEAN
+
+    # ---- statements ------------------------------------------------------------------------------
+    def assign(self, target, t, st, node):
+        if isinstance(target, ast.Name):
+            self.bind(st, target.id, t)
+        elif isinstance(target, (ast.Tuple, ast.List)):
+            n = len(target.elts)
+            if t not in (CLEAN, TAINT) and t[0] == "tup" and len(t[1]) == n and not any(isinstance(x, ast.Starred) for x in target.elts):
+                for x, tx in zip(target.elts, t[1]):
+                    self.assign(x, tx, st, node)
+            else:
+                for x in target.elts:
+                    self.assign(x, t_elem(t), st, node)
+        elif isinstance(target, ast.Starred):
+            self.assign(target.value, t, st, node)
+        elif isinstance(target, ast.Attribute):
+            self.tv(target.value, st)
+            ok = target.attr in self.cfg.store_attrs or (target.attr in self.cfg.self_store_attrs and self.is_self(target.value))
+            if t_any(t) and not ok:
+                self.bad(node, f"{self.cfg.what}-derived value stored into attribute `.{target.attr}`")
+        elif isinstance(target, ast.Subscript):
+            bt = self.tv(target.value, st)
+            if t_any(self.tv(target.slice, st)):
+                self.bad(node, f"subscript/index derived from a {self.cfg.what}")
+            if t_any(t):
+                if isinstance(target.value, ast.Name) and target.value.id in self.locals:
+                    self.bind(st, target.value.id, t_join(self.lookup(target.value.id, st), ("seq", t)))
+                else:
+                    self.bad(node, f"{self.cfg.what}-derived value stored into a container that is not a local variable")
+
+    def do_simple(self, s, st):
+        if isinstance(s, ast.Assign):
+            t = self.tv(s.value, st)
+            for x in s.targets:
+                self.assign(x, t, st, s)
+        elif isinstance(s, ast.AnnAssign):
+            if s.value is not None:
+                self.assign(s.target, self.tv(s.value, st), st, s)
+        elif isinstance(s, ast.AugAssign):
+            r = self.tv(s.value, st)
+            tg = s.target
+            if isinstance(tg, ast.Name):
+                cur = self.lookup(tg.id, st)
+                if (cur == TAINT or r == TAINT):
+                    if not self.cfg.allow_arith:
+                        self.bad(s, f"arithmetic on a {self.cfg.what}-derived value")
+                    self.bind(st, tg.id, TAINT)
+                else:
+                    self.bind(st, tg.id, t_join(cur, r) if (cur == CLEAN or r == CLEAN) else ("seq", t_join(t_elem(cur), t_elem(r))))
+            elif isinstance(tg, ast.Attribute):
+                cur = self.tv(ast.Attribute(value=tg.value, attr=tg.attr, ctx=ast.Load(), lineno=tg.lineno, col_offset=tg.col_offset), st)
+                t = t_join(cur, r)
+                if t == TAINT and not self.cfg.allow_arith:
+                    self.bad(s, f"arithmetic on a {self.cfg.what}-derived value")
+                self.assign(tg, t, st, s)
+            else:
+                self.assign(tg, r, st, s)
+        elif isinstance(s, ast.Expr):
+            self.tv(s.value, st)
+        elif isinstance(s, ast.Assert):
+            self.cond(s.test, st, "assertion")
+        elif isinstance(s, ast.Delete):
+            for x in s.targets:
+                if isinstance(x, ast.Subscript) and t_any(self.tv(x.slice, st)):
+                    self.bad(s, f"subscript/index derived from a {self.cfg.what}")
+        return st
+
+    def do_test(self, e, st):
+        s2 = dict(st)
+        self.cond(e, s2)
+        return s2, dict(s2)
+
+    def do_iter(self, s, st):
+        t = self.tv(s.iter, st)
+        if t == TAINT:
+            self.bad(s.iter, f"iteration over a {self.cfg.what}-derived value")
+        self._it = getattr(self, "_it", {})
+        self._it[id(s)] = t
+        return st
+
+    def do_bind_iter(self, s, st):
+        s2 = dict(st)
+        self.assign(s.target, t_elem(self._it[id(s)]), s2, s)
+        return s2
+
+    def do_return(self, s, st):
+        if s.value is not None:
+            self.ret = t_join(self.ret, self.tv(s.value, st))
+        return st
+
+    def do_raise(self, s, st):
+        # the text of an error message may mention coordinates
+        if isinstance(s.exc, ast.Call):
+            for a in s.exc.args:
+                self.tv(a, st)
+            for k in s.exc.keywords:
+                self.tv(k.value, st)
+        elif s.exc is not None:
+            self.tv(s.exc, st)
+        return st
+
+    def do_subject(self, s, st):
+        t = self.tv(s.subject, st)
+        if t_any(t):
+            self.bad(s.subject, f"match subject derived from a {self.cfg.what}")
+        return st
+
+    def do_case(self, s, case, st):
+        s2 = dict(st)
+        for n in ast.walk(case.pattern):
+            if isinstance(n, (ast.MatchAs, ast.MatchStar)) and n.name:
+                self.bind(s2, n.name, CLEAN)
+            elif isinstance(n, ast.MatchValue):
+                if t_any(self.tv(n.value, s2)):
+                    self.bad(n.value, f"match pattern derived from a {self.cfg.what}")
+        return s2, st
+
+    def do_with(self, s, st):
+        for it in s.items:
+            t = self.tv(it.context_expr, st)
+            if it.optional_vars is not None:
+                self.assign(it.optional_vars, t, st, s)
+        return st
+
+    def do_handler(self, h, st):
+        s2 = dict(st) if st is not None else {}
+        if h.name:
+            self.bind(s2, h.name, CLEAN)
+        return s2
+
+
+# ======================================================================================
+# helpers for the obligation families
+# ======================================================================================
+WHITESPACE = {" ", "\t", "\n", "\r", "\f", "\v"}
+
+
+def _pattern_strings(p) -> Optional[List[str]]:
+    if isinstance(p, ast.MatchValue) and isinstance(p.value, ast.Constant) and isinstance(p.value.value, str):
+        return [p.value.value]
+    if isinstance(p, ast.MatchOr):
+        out = []
+        for x in p.patterns:
+            r = _pattern_strings(x)
+            if r is None:
+                return None
+            out += r
+        return out
+    return None
+
+
+def whitespace_branches(fn_node) -> List[Tuple[str, List[ast.stmt], int, int]]:
+    """Branches of a function that are selected by a comparison of a character with whitespace
+    constants only: match-cases `case " " | "\\t":` and `if ch == " "` / `if ch in " \\t"` tests.
+    -> [(label, body, first line, last line)]"""
+    out = []
+    for n in ast.walk(fn_node):
+        if isinstance(n, ast.Match):
+            for c in n.cases:
+                strs = _pattern_strings(c.pattern)
+                if strs and all(s and set(s) <= WHITESPACE for s in strs) and c.guard is None:
+                    out.append(("case " + "|".join(repr(s) for s in strs), c.body, c.body[0].lineno, c.body[-1].end_lineno))
+        elif isinstance(n, ast.If) and isinstance(n.test, ast.Compare) and len(n.test.ops) == 1 \
+                and isinstance(n.test.ops[0], (ast.Eq, ast.In)):
+            c = n.test.comparators[0]
+            strs = None
+            if isinstance(c, ast.Constant) and isinstance(c.value, str):
+                strs = [c.value] if isinstance(n.test.ops[0], ast.Eq) else list(c.value)
+            elif isinstance(c, (ast.Tuple, ast.Set, ast.List)) and all(isinstance(x, ast.Constant) and isinstance(x.value, str) for x in c.elts):
+                strs = [x.value for x in c.elts]
+            if strs and all(s and set(s) <= WHITESPACE for s in strs):
+                out.append(("if " + src_of(n.test), n.body, n.body[0].lineno, n.body[-1].end_lineno))
+    return out
+
+
+def sites_between(eff: Effects, lo: int, hi: int) -> List[Site]:
+    return [s for s in eff.sites.values() if lo <= s.lineno <= hi]
+
+
+def returns_in(stmts: List[ast.stmt]) -> List[ast.Return]:
+    out = []
+    for s in stmts:
+        for n in ast.walk(s):
+            if isinstance(n, ast.Return):
+                out.append(n)
+    return out
+
+
+_CTX: Dict[str, Any] = {}
+
+
+def context(frames_module):
+    """Program + effect analysis of the current tree (cached per process)."""
+    key = core.REPO
+    if _CTX.get("key") != key:
+        core.Source._cache.clear()
+        prog = Program()
+        A = Analysis(prog, FrameSpec(frames_module)).run()
+        _CTX.clear()
+        _CTX.update(key=key, prog=prog, A=A)
+    return _CTX["prog"], _CTX["A"]
